@@ -372,7 +372,26 @@ fn body_inner(vc: &Ctx, case: &Case) -> Result<St, Fail> {
     let ptok = arc.as_ref().unwrap().tok.id();
     let mut pool: Vec<Obj> = Vec::new();
     let mut st = St::default();
-    let mk_ctx = |a: &Arc<Payload>| -> Cx { CArc::<Payload>::from(a.clone()).into_opaque() };
+    // the context handle reaches the object by one of several routes (all must give a handle that
+    // clones and releases through the functions of the module that made it)
+    let ctx_no = std::cell::Cell::new(0u32);
+    let mk_ctx = |a: &Arc<Payload>| -> Cx {
+        ctx_no.set(ctx_no.get() + 1);
+        let c = CArc::<Payload>::from(a.clone());
+        match ctx_no.get() % 4 {
+            1 => match c.transpose() {
+                Some(s) => s.transpose().into_opaque(),
+                None => unreachable!(),
+            },
+            2 => CArc::<Payload>::from(c.transpose()).into_opaque(),
+            3 => {
+                let d = c.clone();
+                drop(c);
+                d.into_opaque()
+            }
+            _ => c.into_opaque(),
+        }
+    };
     for (step, op) in case.ops.iter().enumerate() {
         let n = pool.len();
         let when = format!("step {step} {op:?}");
@@ -530,14 +549,14 @@ fn body_inner(vc: &Ctx, case: &Case) -> Result<St, Fail> {
                             let c = x.clone();
                             ensure!(c.rt_val() == v, "C01:ret", "{when}: clone answers {}", c.rt_val());
                             pool.push(Obj::RootG(x.upcast(), v));
-                            pool.push(Obj::RootG(c.upcast(), v));
+                            pool.push(Obj::RootG(c.into(), v)); // back through `From<cast form> for Group`, the other documented way
                         }
                         Obj::MidG(g, v) => {
                             let x = cast!(g impl Clone).ok_or_else(|| Fail::new("C08:cast", format!("{when}: cast to Clone refused")))?;
                             let c = x.clone();
                             ensure!(c.md_val() == v, "C01:ret", "{when}: clone answers {}", c.md_val());
                             pool.push(Obj::MidG(x.upcast(), v));
-                            pool.push(Obj::MidG(c.upcast(), v));
+                            pool.push(Obj::MidG(c.into(), v));
                         }
                         _ => unreachable!(),
                     }
